@@ -127,6 +127,14 @@ pub fn momentum_update(n: usize, decay: f64) {
 /// saturated demand: |demand * tanh(scale * M)| / n >= 1 -> exactly one market order per trader
 /// (and one limit order per trader when order_ratio * that >= 1), in the direction of M
 pub fn momentum_saturated(n: usize, rising: bool) {
+    momentum_saturated_r(n, rising, -1.0)
+}
+
+/// `ratio_c < 0`: order ratio symbolic >= 1.  Otherwise the order ratio is the concrete `ratio_c`
+/// (< 1) and demand / n >= 2 / ratio_c, so that the market-order probability exceeds 1 while the
+/// limit-order probability order_ratio * demand / n is still >= 1: "always" for both, which a
+/// probability capped BEFORE the limit-order probability is derived from it would not give
+pub fn momentum_saturated_r(n: usize, rising: bool, ratio_c: f64) {
     let tick: Price = 1;
     let mut env: Env = Env::new(any_u64(), tick, any_u64(), any_bool());
     let mid = env.get_orderbook().mid_price();
@@ -139,9 +147,13 @@ pub fn momentum_saturated(n: usize, rising: bool) {
         assume(last - mid >= 1.0);
     }
     let demand = any_f64();
-    assume(demand.is_finite() && demand >= 2.0 * n as f64 && demand <= 1.0e9);
-    let ratio = any_f64();
-    assume(ratio >= 1.0 && ratio <= 1.0e3);
+    let ratio = if ratio_c < 0.0 { any_f64() } else { ratio_c };
+    if ratio_c < 0.0 {
+        assume(demand.is_finite() && demand >= 2.0 * n as f64 && demand <= 1.0e9);
+        assume(ratio >= 1.0 && ratio <= 1.0e3);
+    } else {
+        assume(demand.is_finite() && demand >= (2.0 / ratio_c) * n as f64 && demand <= 1.0e9);
+    }
     let vol = any_u32();
     assume(vol >= 1);
     let prev = any_f64();
@@ -205,6 +217,9 @@ pub fn stub_cancel_m<R: RngCore, const M: usize, const N: usize>(_env: &mut Mark
 /// the multi-asset twin of `momentum_saturated` (agent on asset 1 of a two-asset environment), with
 /// an arbitrary previous momentum so that a stale read of the stored signal is visible
 pub fn momentum_market_saturated(n: usize, rising: bool) {
+    momentum_market_saturated_r(n, rising, -1.0)
+}
+pub fn momentum_market_saturated_r(n: usize, rising: bool, ratio_c: f64) {
     let tick: Price = 1;
     let mut env: MarketEnv<2, 2> = MarketEnv::new(any_u64(), [1, tick], any_u64(), any_bool());
     let mid = env.get_market().get_order_book(1).mid_price();
@@ -216,9 +231,13 @@ pub fn momentum_market_saturated(n: usize, rising: bool) {
         assume(last - mid >= 1.0);
     }
     let demand = any_f64();
-    assume(demand.is_finite() && demand >= 2.0 * n as f64 && demand <= 1.0e9);
-    let ratio = any_f64();
-    assume(ratio >= 1.0 && ratio <= 1.0e3);
+    let ratio = if ratio_c < 0.0 { any_f64() } else { ratio_c };
+    if ratio_c < 0.0 {
+        assume(demand.is_finite() && demand >= 2.0 * n as f64 && demand <= 1.0e9);
+        assume(ratio >= 1.0 && ratio <= 1.0e3);
+    } else {
+        assume(demand.is_finite() && demand >= (2.0 / ratio_c) * n as f64 && demand <= 1.0e9);
+    }
     let vol = any_u32();
     assume(vol >= 1);
     let prev = any_f64();
@@ -262,6 +281,75 @@ pub fn momentum_market_saturated(n: usize, rising: bool) {
     vcheck!(asset_ok, "MOMENTUM.own_asset_volume_and_trader_ids");
     vcheck!(agent.last_price == Some(mid), "MOMENTUM.remembers_the_mid_price_it_observed");
     vcover!(n_new == 2 * n, "cover.every_trader_acted");
+    core::mem::forget(env);
+    core::mem::forget(agent);
+}
+
+/// the multi-asset twin of `momentum_update`: one `MomentumMarketAgent::update` (agent on asset 1 of
+/// a two-asset environment) from symbolic (last_price, momentum) and finite parameters - demand 0
+/// and a signal of exactly 0 included, so that a shortcut taken when nothing can be traded is seen
+/// to store the signal and the observed price all the same
+pub fn momentum_market_update(n: usize, decay: f64) {
+    let tick: Price = 1;
+    let mut env: MarketEnv<2, 2> = MarketEnv::new(any_u64(), [1, tick], any_u64(), any_bool());
+    let mid = env.get_market().get_order_book(1).mid_price();
+    let last = any_f64();
+    let m0 = any_f64();
+    let demand = any_f64();
+    let scale = any_f64();
+    let ratio = any_f64();
+    assume(last.is_finite() && m0.is_finite() && demand.is_finite() && scale.is_finite() && ratio.is_finite());
+    assume(last >= 0.0 && last <= 4294967295.0 && m0.abs() <= 4294967295.0 && ratio >= 0.0 && scale > 0.0 && scale <= 1.0e6);
+    let vol = any_u32();
+    assume(vol >= 1);
+    let mut agent = MomentumMarketAgent {
+        price_dist: LogNormal::<f64>::new(0.0, 1.0).unwrap(),
+        orders: Vec::new(),
+        trader_ids: if n == 1 { vec![7] } else { vec![7, 8] },
+        last_price: Some(last),
+        momentum: m0,
+        n: n as f64,
+        asset: 1,
+        tick_size: tick.into(),
+        params: MomentumParams { tick_size: tick, p_cancel: 0.0, trade_vol: vol, decay, demand, scale, order_ratio: ratio, price_dist_mu: 0.0, price_dist_sigma: 1.0 },
+    };
+    let m_expected = m0 * (1.0 - decay) + decay * (mid - last);
+    assume(m_expected.is_finite());
+    let mut rng = SymRng::new();
+    agent.update(&mut env, &mut rng);
+    vcheck!(agent.momentum == m_expected, "MOMENTUM.signal_is_m_1_minus_decay_plus_decay_times_price_change");
+    vcheck!(agent.last_price == Some(mid), "MOMENTUM.remembers_the_mid_price_it_observed");
+    let (log, n_new) = placed();
+    let mut dir_ok = true;
+    let mut own_ok = true;
+    let mut n_market = 0usize;
+    let mut n_limit = 0usize;
+    let mut k = 0;
+    while k < 4 {
+        if k < n_new {
+            let o = log[k];
+            dir_ok &= (agent.momentum > 0.0 && o.bid) || (agent.momentum < 0.0 && !o.bid);
+            own_ok &= o.asset == 1 && o.vol == vol && (o.trader == 7 || (n == 2 && o.trader == 8));
+            if o.price.is_none() {
+                n_market += 1;
+            } else {
+                n_limit += 1;
+            }
+        }
+        k += 1;
+    }
+    vcheck!(n_market <= n && n_limit <= n, "MOMENTUM.at_most_one_limit_and_one_market_order_per_trader");
+    vcheck!(dir_ok, "MOMENTUM.buys_iff_signal_positive_sells_iff_negative");
+    vcheck!(own_ok, "MOMENTUM.own_asset_volume_and_trader_ids");
+    if m_expected == 0.0 {
+        vcheck!(n_new == 0, "MOMENTUM.no_order_at_zero_signal");
+    }
+    if demand == 0.0 {
+        vcheck!(n_new == 0, "MOMENTUM.no_order_at_zero_demand");
+    }
+    vcover!(n_new >= 1 && agent.momentum > 0.0, "cover.buys_in_rising_market");
+    vcover!(n_new >= 1 && agent.momentum < 0.0, "cover.sells_in_falling_market");
+    vcover!(m_expected == 0.0 && m0 != 0.0, "cover.signal_cancelled_by_a_reversal");
     core::mem::forget(env);
     core::mem::forget(agent);
 }
@@ -399,4 +487,46 @@ vharnesses! {
     #[cfg_attr(kani, kani::stub(crate::agents::common::cancel_live_orders_market, stub_cancel_m))]
     #[cfg_attr(kani, kani::stub(crate::MarketEnv::place_order, crate::MarketEnv::verif_log_place_order))]
     fn c17_momentum_market_saturated_falling_n2() { momentum_market_saturated(2, false) }
+    #[cfg_attr(kani, kani::unwind(12))]
+    #[cfg_attr(kani, kani::stub(f64::tanh, tanh_sat))]
+    #[cfg_attr(kani, kani::stub(crate::agents::common::place_buy_limit_order, stub_buy))]
+    #[cfg_attr(kani, kani::stub(crate::agents::common::place_sell_limit_order, stub_sell))]
+    #[cfg_attr(kani, kani::stub(crate::agents::common::cancel_live_orders, stub_cancel))]
+    #[cfg_attr(kani, kani::stub(crate::Env::place_order, crate::Env::verif_log_place_order))]
+    fn c17_momentum_saturated_ratio_half_rising_n2() { momentum_saturated_r(2, true, 0.5) }
+    #[cfg_attr(kani, kani::unwind(12))]
+    #[cfg_attr(kani, kani::stub(f64::tanh, tanh_sat))]
+    #[cfg_attr(kani, kani::stub(crate::agents::common::place_buy_limit_order, stub_buy))]
+    #[cfg_attr(kani, kani::stub(crate::agents::common::place_sell_limit_order, stub_sell))]
+    #[cfg_attr(kani, kani::stub(crate::agents::common::cancel_live_orders, stub_cancel))]
+    #[cfg_attr(kani, kani::stub(crate::Env::place_order, crate::Env::verif_log_place_order))]
+    fn c17_momentum_saturated_ratio_half_falling_n2() { momentum_saturated_r(2, false, 0.5) }
+    #[cfg_attr(kani, kani::unwind(12))]
+    #[cfg_attr(kani, kani::stub(f64::tanh, tanh_sat))]
+    #[cfg_attr(kani, kani::stub(crate::agents::common::place_buy_limit_order, stub_buy))]
+    #[cfg_attr(kani, kani::stub(crate::agents::common::place_sell_limit_order, stub_sell))]
+    #[cfg_attr(kani, kani::stub(crate::agents::common::cancel_live_orders, stub_cancel))]
+    #[cfg_attr(kani, kani::stub(crate::Env::place_order, crate::Env::verif_log_place_order))]
+    fn c17_momentum_ratio_zero_falling_n2() { momentum_ratio_zero(2, false) }
+    #[cfg_attr(kani, kani::unwind(12))]
+    #[cfg_attr(kani, kani::stub(f64::tanh, tanh_sat))]
+    #[cfg_attr(kani, kani::stub(crate::agents::common::place_buy_limit_order_market, stub_buy_m))]
+    #[cfg_attr(kani, kani::stub(crate::agents::common::place_sell_limit_order_market, stub_sell_m))]
+    #[cfg_attr(kani, kani::stub(crate::agents::common::cancel_live_orders_market, stub_cancel_m))]
+    #[cfg_attr(kani, kani::stub(crate::MarketEnv::place_order, crate::MarketEnv::verif_log_place_order))]
+    fn c17_momentum_market_saturated_ratio_half_falling_n2() { momentum_market_saturated_r(2, false, 0.5) }
+    #[cfg_attr(kani, kani::unwind(12))]
+    #[cfg_attr(kani, kani::stub(f64::tanh, tanh_model))]
+    #[cfg_attr(kani, kani::stub(crate::agents::common::place_buy_limit_order_market, stub_buy_m))]
+    #[cfg_attr(kani, kani::stub(crate::agents::common::place_sell_limit_order_market, stub_sell_m))]
+    #[cfg_attr(kani, kani::stub(crate::agents::common::cancel_live_orders_market, stub_cancel_m))]
+    #[cfg_attr(kani, kani::stub(crate::MarketEnv::place_order, crate::MarketEnv::verif_log_place_order))]
+    fn c17_momentum_market_update_n1_decay1() { momentum_market_update(1, 1.0) }
+    #[cfg_attr(kani, kani::unwind(12))]
+    #[cfg_attr(kani, kani::stub(f64::tanh, tanh_model))]
+    #[cfg_attr(kani, kani::stub(crate::agents::common::place_buy_limit_order_market, stub_buy_m))]
+    #[cfg_attr(kani, kani::stub(crate::agents::common::place_sell_limit_order_market, stub_sell_m))]
+    #[cfg_attr(kani, kani::stub(crate::agents::common::cancel_live_orders_market, stub_cancel_m))]
+    #[cfg_attr(kani, kani::stub(crate::MarketEnv::place_order, crate::MarketEnv::verif_log_place_order))]
+    fn c17_momentum_market_update_n2_decay_half() { momentum_market_update(2, 0.5) }
 }
